@@ -42,12 +42,22 @@ def noracle(fn, n, M, z0, out):
     src, dst, _ = NFUNCS[fn]
     if n == 0:
         return None
-    if any(x != x or abs(x) == float('inf') for x in out):
+    Ain = nrel(src, M, z0)
+    if any(x != x or abs(x) == float('inf') for x in out) or max(abs(x) for x in out) > 1e5:
+        # non-finite or huge output is what the conversion's singular set gives; away from it, it is a wrong answer.  Decided from the
+        # input alone: the states of the input relation, written in the independent variable of the output relation, must be regular
+        if dst == 'zi' or np.abs(M).max() == 0 and n == 0:
+            return 'skip'
+        with np.errstate(all='ignore'):
+            N0, s0 = null(Ain, n)
+            blk = nforms(z0)[NREL[dst][1]] @ N0
+            sv0 = np.linalg.svd(blk, compute_uv=False)
+            reg = s0[0] / max(s0[n - 1], 1e-300) < 1e4 and sv0[-1] > 1e-3 * sv0[0]
+        if reg:
+            return 'non-finite or huge output (%s) for an input away from the singular set of the conversion (condition %.1e of the output relation\'s independent variable)' % (
+                ', '.join(repr(x) for x in out[:2]), sv0[0] / max(sv0[-1], 1e-300))
         return 'skip'
     big = max(abs(x) for x in out)
-    if big > 1e5:
-        return 'skip'
-    Ain = nrel(src, M, z0)
     if dst != 'zi':
         O = np.array(out, complex).reshape(n, n)
         N, s = null(Ain, n)
@@ -132,6 +142,17 @@ def run_numeric(chk, exe, rng, broken, scale=1):
             if n > 2 and rng.random() < 0.5:
                 q = next(x for x in range(n) if x not in (i_, j_))
                 M[q, q] = rc(rng) * 3                                   # one more port with an element of its own
+            z0 = z0_vector(rng, n)
+            mode = 'alias' if k % 3 == 2 else 'sep'
+            cases.append((fn, n, mode, M, z0))
+            lines.append('convn %s %d %s %s %s' % (fn, n, mode, ' '.join(vlib.c2h(x) for x in M.flatten()), ' '.join(vlib.c2h(x) for x in z0)))
+    # lossless reciprocal networks: zero self terms, purely imaginary transfer terms (a quarter-wave line is Z = [[0, -50j], [-50j, 0]])
+    for fn in ('vnaconv_ztoyn', 'vnaconv_ytozn', 'vnaconv_ztosn', 'vnaconv_ytosn'):
+        for k in range(max(4, per // 6)):
+            n = rng.choice([2, 2, 3, 4])
+            sc_ = 50.0 if fn[8] == 'z' else 0.02
+            M = np.array([[0 if i == j else 1j * rng.choice([-1, 1]) * rng.uniform(0.3, 2.0) * sc_ for j in range(n)] for i in range(n)], complex).reshape(n, n)
+            M = (M + M.T) / 2
             z0 = z0_vector(rng, n)
             mode = 'alias' if k % 3 == 2 else 'sep'
             cases.append((fn, n, mode, M, z0))
